@@ -719,6 +719,19 @@ func TestVerifC10(t *testing.T) {
 			}
 		}
 	}
+	// the SAME original cancelled twice on one client, the node's suggestion raised (or changed) in between:
+	// the second replacement must follow the suggestion of its own moment
+	for _, tr := range []string{"", "wire"} {
+		for _, ch := range [][2]string{{"1000000000", "50000000000"}, {"1", "1000"}, {"0", caps[7]}, {"50000000000", "1000000000"}, {"1000000000", "err"}} {
+			for _, kind := range []string{"own", "legacy", "access", "dynamic"} {
+				tgt := func() *c10In {
+					return &c10In{Kind: kind, Nonce: 6, Tip: "1000000000", Fee: "2000000000", State: "pending", Sign: true, Sub: true}
+				}
+				run("same-original-twice", c10In{T: tr, Steps: []c10Step{{K: "tip", Sug: "1000000000"}, {K: "send"}, {K: "tip", Sug: ch[0]},
+					{K: "cancel", C: tgt()}, {K: "tip", Sug: ch[1]}, {K: "cancel", C: tgt()}, {K: "cancel", C: tgt()}}})
+			}
+		}
+	}
 	// sessions on one client: an earlier operation, then the node's suggestion changes, then CancelTx.
 	// The replacement must follow what the node suggests at that moment; a failing query must refuse.
 	gwei := "1000000000"
